@@ -1888,12 +1888,20 @@ OP_ROL = "<<<"
 
 def ror(x, n):
     "high-level rotate right n bits"
-    return (x >> n | x << (x.size - n)) if x._is_cst else op(OP_ROR, x, n)
+    if x._is_cst:
+        return x >> n | x << (x.size - n)
+    if isinstance(n, int):
+        n = cst(n, x.size)
+    return op(OP_ROR, x, n)
 
 
 def rol(x, n):
     "high-level rotate left n bits"
-    return (x << n | x >> (x.size - n)) if x._is_cst else op(OP_ROL, x, n)
+    if x._is_cst:
+        return x << n | x >> (x.size - n)
+    if isinstance(n, int):
+        n = cst(n, x.size)
+    return op(OP_ROL, x, n)
 
 
 def ltu(x, y):
